@@ -7,6 +7,7 @@ import (
 	"os"
 	"os/exec"
 	"path/filepath"
+	"runtime/debug"
 	"sort"
 	"strings"
 	"sync"
@@ -96,7 +97,7 @@ func selfTest(prop, repo, vdir string, out *core.Outcome) {
 		fail bool
 	}
 	results := make([]result, len(vars))
-	sem := make(chan struct{}, 4)
+	sem := make(chan struct{}, 3)
 	var wg sync.WaitGroup
 	for i, v := range vars {
 		wg.Add(1)
@@ -106,6 +107,7 @@ func selfTest(prop, repo, vdir string, out *core.Outcome) {
 			defer func() { <-sem }()
 			line, fail := runVariant(pc, prop, repo, v, base)
 			results[i] = result{line, fail}
+			debug.FreeOSMemory()
 		}(i, v)
 	}
 	wg.Wait()
